@@ -288,9 +288,12 @@ def machine(tier, sink):
         i, j = base['panel']['perm_seed'] % len(ids), (base['panel']['perm_seed'] // 7) % (len(ids) - 1)
         j = j if j < i else j + 1
         base['panel']['copy'] = [[i, j]]
-        rows = [] if base['elig'] is None else [r for r in base['elig']['rows'] if r[0] not in (ids[i], ids[j])]
-        rows += [[ids[i], 1, 0, 1], [ids[j], 1, 0, 1]]
-        base['elig'] = dict(base['elig'] or {'as_index': False, 'style': 'twins', 'col_order': None, 'row_labels': None}, rows=rows)
+        if base['panel']['perm_seed'] % 3 != 2:
+          rows = [] if base['elig'] is None else [r for r in base['elig']['rows'] if r[0] not in (ids[i], ids[j])]
+          rows += [[ids[i], 1, 0, 1], [ids[j], 1, 0, 1]]
+          base['elig'] = dict(base['elig'] or {'as_index': False, 'style': 'twins', 'col_order': None, 'row_labels': None}, rows=rows)
+        # (otherwise the twins keep their rows: a candidate pairing one against the other is perfectly correlated and the
+        # exhaustive search raises ValueError part-way - a later retrieval must still show the last completed search)
         base['params']['n_designs'] = max(5, base['params']['n_designs'])
       if len(base['panel']['ids']) >= 4 and base['panel']['perm_seed'] % 3 == 0:
         base['params']['n_geos_max'] = 2 + base['panel']['perm_seed'] % 2      # a binding cap on the geos admitted
